@@ -3,9 +3,9 @@ from .. import scenecheck as sc, scene
 from . import _scene, C02
 
 CFG = dict(nops=9, maxdim=9, init="random", p_clip=0.4, p_layer=0.08, p_xf=0.08, p_structured=0.5,
-           sources=["solid"], modes=[3, 3, 3, 1, 2, 11, 13, 23], draw_kinds=["fill", "fill", "fillrect", "clear", "mask", "stroke"])
+           sources=["solid", "solid", "solid", "image", "linear"], modes=[3, 3, 3, 1, 2, 11, 13, 23], draw_kinds=["fill", "fill", "fillrect", "clear", "mask", "stroke"])
 RULE = ("random scenes dominated by push_clip_rect / push_clip / pop_clip in any order and nesting (overlapping, disjoint, "
-        "inverted, off-surface and oversize rectangles; partial-coverage paths), drawing after every push and pop; the "
+        "inverted, off-surface and oversize rectangles; partial-coverage paths), drawing after every push and pop with solid, image and gradient sources; the "
         "implementation's clip bounds and clip mask (hook verif_clip) are compared with the model's summary after every op and "
         "the frame oracle of C02 checks that nothing changes outside the intersection; non-trivial = scene with >= 2 clip "
         "pushes and a drawing op that changed and preserved pixels")
@@ -16,6 +16,12 @@ def concrete(sr, i, k, c, op):
         return "clip bounds or clip mask differ from the intersection of the pushed clips"
     if c.get("frame", 0) > 0:
         return "pixels outside the clip intersection changed"
+    if c.get("formula", 0) > 0 and k < len(sr.model[i]) and not sr.model[i][k].panic:
+        # while a clip path is in force, the change of a pixel must be the unclipped change scaled by the clip coverage:
+        # a value that no coverage explains is not
+        clip = sr.model[i][k].parse()["clip"].split()
+        if clip and clip[-1] != "none":
+            return "under a clip path a pixel's change is not the unclipped change scaled by the clip coverage"
     return None
 
 
